@@ -28,8 +28,9 @@ pub trait UpdateTrailingTrivia: Sized {
 }
 pub trait UpdateTrivia: Sized {
     spec fn same_sem_u(&self, r: &Self) -> bool;
+    spec fn trivia_ok(&self, l: FormatTriviaType, t: FormatTriviaType, r: &Self) -> bool;
     fn update_trivia(&self, leading_trivia: FormatTriviaType, trailing_trivia: FormatTriviaType) -> (r: Self)
-        ensures self.same_sem_u(&r);
+        ensures self.same_sem_u(&r), self.trivia_ok(leading_trivia, trailing_trivia, &r);
 }
 pub uninterp spec fn expr_padded_left(e: Expression) -> bool;
 pub uninterp spec fn tok_followed_by_ws(t: TokenReference) -> bool;   // the token's trailing trivia ends with trivia the formatter appended
@@ -69,8 +70,15 @@ impl UpdateTrailingTrivia for BinOp {
     open spec fn not_open(&self) -> bool { !binop_open(*self) }
     #[verifier::external_body] fn update_trailing_trivia(&self, trailing_trivia: FormatTriviaType) -> (r: Self) { unimplemented!() }
 }
+// a trivia list without a line comment (e.g. a single space) leaves nothing open behind the token
+pub open spec fn no_line_comment(v: Seq<Token>) -> bool { forall|i: int| 0 <= i < v.len() ==> !is_line_comment_tok(#[trigger] v[i]) }
 impl UpdateTrivia for BinOp {
+    // both trivia lists are replaced: the operator starts a line if the new leading trivia end with newline (+ indent), and it is
+    // closed if the new trailing trivia hold no line comment
     open spec fn same_sem_u(&self, r: &Self) -> bool { binop_id(*r) == binop_id(*self) }
+    open spec fn trivia_ok(&self, l: FormatTriviaType, t: FormatTriviaType, r: &Self) -> bool {
+        (ftt_new_line(l) ==> binop_nl(*r)) && (t is Replace && no_line_comment(t->Replace_0@) ==> !binop_open(*r))
+    }
     #[verifier::external_body] fn update_trivia(&self, leading_trivia: FormatTriviaType, trailing_trivia: FormatTriviaType) -> (r: Self) { unimplemented!() }
 }
 impl UpdateLeadingTrivia for UnOp {
@@ -105,6 +113,7 @@ impl UpdateTrailingTrivia for TokenReference {
 }
 impl UpdateTrivia for TokenReference {
     open spec fn same_sem_u(&self, r: &Self) -> bool { tok_of(*r) == tok_of(*self) }
+    open spec fn trivia_ok(&self, l: FormatTriviaType, t: FormatTriviaType, r: &Self) -> bool { true }
     #[verifier::external_body] fn update_trivia(&self, leading_trivia: FormatTriviaType, trailing_trivia: FormatTriviaType) -> (r: Self) { unimplemented!() }
 }
 impl UpdateLeadingTrivia for ContainedSpan {
